@@ -23,7 +23,7 @@ def gen_history(rng, spec, n, ops=('ev',), weights=None, queries=False):
   names = sp.order
   for _ in range(n):
     k = rng.choices(list(ops), weights=weights)[0] if weights else rng.choice(list(ops))
-    if k in ('ev', 'post_fifo', 'post_lifo', 'defer', 'sib_post_fifo', 'sib_post_lifo'):
+    if k in ('ev', 'post_fifo', 'post_lifo', 'defer', 'sib_post_fifo', 'sib_post_lifo', 'pub'):
       out.append([k, rng.choice(sp.signals)])
     elif k in ('is_in', 'child'):
       out.append([k, rng.choice(names + ['top'])])
